@@ -15,6 +15,8 @@ Tie-break rules encoded (property statement + DESIGN 4/C01):
     augmented assignment) bind nothing; `x.y = 1` binds nothing;
   * `self.<name> = ...` / `self.<name>: T [= ...]` anywhere in the statement tree of a class-level `__init__`
     (not inside nested functions/classes) binds an instance attribute on the class, same tie-break rules;
+  * only an `__init__` defined in a class body contributes instance attributes: functions called `__init__` elsewhere, and
+    `self.x = ...` in any other function, bind nothing; `__all__` below a class is an ordinary attribute;
   * functions decorated with typing.overload bind nothing by themselves (they are attached to the implementation that
     follows; the generator only emits complete groups);
   * a function whose decorators resolve to a property-labelled decorator is bound as an attribute;
